@@ -28,6 +28,8 @@ type wrapInfo struct {
 	f     *FieldSchema
 	cellF string     // name of the pointer field: list / m
 	contT types.Type // []T or map[K]V
+	skip  string     // set when the type is named like a view but is not shaped like one
+	name  string
 }
 
 var wrapRe = regexp.MustCompile(`^_(.+)_(\d+)_(list|map)$`)
@@ -49,13 +51,23 @@ func wrapperTypes(ms *MsgSchema) []wrapInfo {
 			continue
 		}
 		st, ok := nt.Underlying().(*types.Struct)
-		if !ok || st.NumFields() != 1 {
-			continue
-		}
-		pt, ok := st.Field(0).Type().(*types.Pointer)
 		if !ok {
+			out = append(out, wrapInfo{name: nm, skip: "a type named like a list/map view is not a struct"})
 			continue
 		}
+		// the view's target is its (first) pointer field; further fields are state of the view itself
+		cellIdx := -1
+		for i := 0; i < st.NumFields(); i++ {
+			if _, isPtr := st.Field(i).Type().(*types.Pointer); isPtr {
+				cellIdx = i
+				break
+			}
+		}
+		if cellIdx < 0 {
+			out = append(out, wrapInfo{name: nm, skip: "a type named like a list/map view has no pointer to its target"})
+			continue
+		}
+		pt := st.Field(cellIdx).Type().(*types.Pointer)
 		num, _ := strconv.Atoi(m[2])
 		var fs *FieldSchema
 		for _, f := range ms.Fields {
@@ -66,7 +78,7 @@ func wrapperTypes(ms *MsgSchema) []wrapInfo {
 		if fs == nil {
 			continue
 		}
-		out = append(out, wrapInfo{named: nt, isMap: m[3] == "map", f: fs, cellF: st.Field(0).Name(), contT: pt.Elem()})
+		out = append(out, wrapInfo{named: nt, isMap: m[3] == "map", f: fs, cellF: st.Field(cellIdx).Name(), contT: pt.Elem(), name: nm})
 	}
 	return out
 }
@@ -81,6 +93,10 @@ func wrapperUnits(prog *Program, ms *MsgSchema) []*Unit { return wrapperUnitsOnl
 func wrapperUnitsOnly(prog *Program, ms *MsgSchema, only map[string]bool) []*Unit {
 	var out []*Unit
 	for _, w := range wrapperTypes(ms) {
+		if w.skip != "" {
+			out = append(out, &Unit{Name: shortPkg(ms.Pkg.PkgPath) + "." + w.name, Skipped: w.skip})
+			continue
+		}
 		ms2 := listMethods
 		if w.isMap {
 			ms2 = mapMethods
@@ -322,6 +338,17 @@ func wrapperUnit(prog *Program, ms *MsgSchema, w wrapInfo, method string) (u *Un
 	}
 	add := func(i int, r *RetState, clause, goal, text string) {
 		c.addObl(Obl{Name: fmt.Sprintf("%s/ensures[%s]@ret%d", u.Name, clause, i+1), Kind: "ensures", Guard: r.St.guard, Goal: goal, Pos: c.pos(r.Pos), Text: text})
+	}
+	if wrapperReadMethods[method] {
+		// a read method of a view stores into nothing that outlives the call: not into the view itself (a cached key
+		// order, a memo) and not into anything reachable from it
+		n := 0
+		for _, sr := range c.stores {
+			if strings.HasPrefix(sr.Key, "fld:") && !freshRef.MatchString(sr.Ref) {
+				n++
+				c.addObl(Obl{Name: fmt.Sprintf("%s/frame[view not written]#%d", u.Name, n), Kind: "frame", Guard: sr.Guard, Goal: "false", Pos: sr.Pos, Text: method + " performs no store to a field of the view or of an object it did not allocate (" + sr.Key + ")"})
+			}
+		}
 	}
 	for i, r := range c.rets {
 		var res Val
